@@ -1,6 +1,6 @@
 (* C14 -- redo-ifcreate and redo-always dependencies (local theorems). *)
 From Coq Require Import ZArith List.
-From Redo Require Import Base.Bytes Build.Model Build.LocalProofs Build.FailProofs.
+From Redo Require Import Base.Bytes Build.Model Build.LocalProofs Build.FailProofs Build.CleanProofs.
 
 (* declaring redo-ifcreate for an existing path is an error and records nothing *)
 Theorem C14_ifcreate_existing_errors : forall t ns w,
@@ -90,3 +90,16 @@ Example C14_example :
       (run_history h (init_world 0))
   = [None; None; None; None; Some (1, 1, 0%Z)%nat; Some (1, 0, 0%Z)%nat; None; Some (0, 0, 0%Z)%nat; None; Some (0, 1, 1%Z)%nat].
 Proof. vm_compute. reflexivity. Qed.
+
+(* "and not before": as long as every watched path is absent and nothing else changed (the set is
+   quiet -- absence of the redo-ifcreate paths is part of the definition) the check is CLEAN *)
+Theorem C14_not_before : forall runid w rk S fuel g l,
+  forallb (quiet_row_b runid w rk S) S = true -> In g S -> (rk g < fuel)%nat ->
+  (forall chg, r_changed (ld runid w g) = Some chg -> (chg <= runid)%Z) ->
+  exists l' evs, is_dirty fuel runid w (ChkMem l) g (ld runid w g) runid nil = Ret (VClean, w, ChkMem l', evs).
+Proof. exact quiet_b_all_clean. Qed.
+Check C14_not_before : forall runid w rk S fuel g l,
+  forallb (quiet_row_b runid w rk S) S = true -> In g S -> (rk g < fuel)%nat ->
+  (forall chg, r_changed (ld runid w g) = Some chg -> (chg <= runid)%Z) ->
+  exists l' evs, is_dirty fuel runid w (ChkMem l) g (ld runid w g) runid nil = Ret (VClean, w, ChkMem l', evs).
+Print Assumptions C14_not_before.
